@@ -1657,7 +1657,31 @@ def _bytes(eng, st, recv, args, kwargs):
             return eng.ok(st, C(bytes(*[py_of(a) for a in args])))
         except Exception:
             pass
+    if len(args) == 2 and (P.is_str(args[0]) or (isinstance(args[0], U) and any(P.is_str(b_) for _, b_ in args[0].alts))):
+        # bytes(text, encoding): a token that remembers the text (an injective encoding)
+        return eng.ok(st, st.alloc(HObj("opaque", None, fields={"utf8": args[0]}, meta={"tag": "bytes_token"})))
     return eng.ok(st, P.fresh("Bytes", "bytes"))
+
+
+def bytes_token_concat(eng, st, a, b):
+    """a + b for byte tokens (encoded text, packed data): a token that remembers both parts"""
+    return st.alloc(HObj("opaque", None, fields={"parts": T([a, b])}, meta={"tag": "bytes_token"}))
+
+
+def is_bytes_token(st, v):
+    return isinstance(v, R) and st.obj(v).kind == "opaque" and st.obj(v).meta.get("tag") in ("bytes_token", "packed")
+
+
+@bf("hashlib.md5")
+def _md5(eng, st, recv, args, kwargs):
+    """hashlib.md5(data).digest().hex(): some string; the call is logged with its argument"""
+    from .engine import Effect
+    st.effects.append(Effect("hash", "md5", list(args), {}, None))
+    hexs = P.fresh("str", "md5.hex")
+    st.axiom(z3.Length(hexs.t) == 32)
+    hexer = st.alloc(HObj("opaque", None, meta={"tag": "digest", "methods": {"hex": lambda e, s_, r, a, k: e.ok(s_, hexs)}}))
+    return eng.ok(st, st.alloc(HObj("opaque", None, meta={"tag": "md5", "methods": {"digest": lambda e, s_, r, a, k: e.ok(s_, hexer),
+                                                                              "hexdigest": lambda e, s_, r, a, k: e.ok(s_, hexs)}})))
 
 
 # ---- str methods ----
@@ -2032,6 +2056,14 @@ def _getlevelname(eng, st, recv, args, kwargs):
 
 
 BUILTIN_FUNCS["logging.addLevelName"] = _noop
+
+
+@bf("threading.current_thread")
+def _threading_current_thread(eng, st, recv, args, kwargs):
+    """the calling thread: one fixed opaque object per lemma (a lemma runs in a single thread)"""
+    if "current_thread" not in st.ghost:
+        st.ghost["current_thread"] = st.alloc(HObj("opaque", None, meta={"tag": "thread", "name": "caller"}))
+    return eng.ok(st, st.ghost["current_thread"])
 
 
 @bf("threading.RLock")
